@@ -211,6 +211,15 @@ theorem drain_delivers_all_once_and_empties (n : Nat) (hn : 0 < n) (ops₀ ops :
     simp only [Spec.run, List.drop_succ_cons, List.drop_zero, Spec.step, Spec.drain]
     exact Spec.empty_silent ops hns
 
+/-- **every reachable wheel holds at most one live entry per key** (what lets the code address a timer
+through the `timers` map: key ↦ the one entry of that key). -/
+theorem reachable_wheel_keys_nodup (n : Nat) (hn : 0 < n) (ops : List Op) :
+    ((ops.foldl (fun tw op => (step tw op).1) (TW.init n)).entries.map (·.key)).Nodup := by
+  have hr := reachable_abs n hn ops
+  have hk := Spec.reachable_keys_nodup ops
+  rw [← hr.2] at hk
+  simpa [Spec.KeysNodup, Spec.keys, abs, absEntry, List.map_map, Function.comp_def] using hk
+
 /-! ### Non-vacuity -/
 
 /-- a concrete API history with every kind of result: bad delay, nil key, a timer firing, Stop, a call and
